@@ -414,6 +414,9 @@ func (e *Engine) runPath(st *State) {
 	}()
 	for {
 		if st.dead {
+			if os.Getenv("GOVC_DEBUG") != "" {
+				fmt.Printf("  path died (contradictory assumptions) trace=%v last=%v\n", st.trace, st.pc[len(st.pc)-1])
+			}
 			return
 		}
 		st.steps++
@@ -709,6 +712,9 @@ func (e *Engine) runDiscover(st *State, li *loopInfo, key string) {
 	first := true
 	for {
 		if st.dead {
+			if os.Getenv("GOVC_DEBUG") != "" {
+				fmt.Printf("  path died (contradictory assumptions) trace=%v last=%v\n", st.trace, st.pc[len(st.pc)-1])
+			}
 			return
 		}
 		st.steps++
